@@ -154,13 +154,16 @@ func observeDiffIter(cfg *world.Config, newT, oldT *mast.Mast, stopAt, errAt int
 			if i == errAt {
 				return true, cbErr
 			}
+			if errAt <= -2 && i == -errAt-2 {
+				return false, cbErr // "stop" and "failed" at once: the failure counts
+			}
 			if i == stopAt {
 				return false, nil
 			}
 			return true, nil
 		})
 	})
-	if errAt >= 0 && res.Err != nil && errors.Is(res.Err, cbErr) {
+	if (errAt >= 0 || errAt <= -2) && res.Err != nil && errors.Is(res.Err, cbErr) {
 		res.Err = nil
 		res.Root = nil
 		return recs, calls, world.Res{Err: errWrapped}
@@ -255,6 +258,11 @@ func checkEntryDiff(cfg *world.Config, oldT, newT *mast.Mast, oldC, newC world.C
 			g, calls, r = observeDiffIter(cfg, newT, oldT, -1, i)
 			if r.Err != errWrapped || calls != i+1 {
 				out = append(out, explore.Finding{Sig: fmt.Sprintf("C06|DiffIter-cberror|%s|%s", cls, resClass(r)), What: "DiffIter does not fail with the callback's error exactly when the callback fails", Detail: fmt.Sprintf("error at call %d: calls=%d res=%v", i, calls, r)})
+				break
+			}
+			g, calls, r = observeDiffIter(cfg, newT, oldT, -1, -i-2)
+			if r.Err != errWrapped || calls != i+1 {
+				out = append(out, explore.Finding{Sig: fmt.Sprintf("C06|DiffIter-cberror-with-keepGoing-false|%s|%s", cls, resClass(r)), What: "DiffIter does not fail with the callback's error when the callback returns (false, err)", Detail: fmt.Sprintf("error at call %d: calls=%d res=%v", i, calls, r)})
 				break
 			}
 		}
@@ -476,6 +484,8 @@ func checkNodeDiff(cfg *world.Config, o, n *version) []explore.Finding {
 }
 
 // checkDiffCost: C15 for one ordered pair.
+var c15FaultRuns int64
+
 func checkDiffCost(cfg *world.Config, o, n *version) []explore.Finding {
 	cls := heightClass(o, n)
 	D := 0
@@ -527,6 +537,37 @@ func checkDiffCost(cfg *world.Config, o, n *version) []explore.Finding {
 	measure("DiffIter", func() error {
 		return n.t.DiffIter(ctx, o.t, func(a, r bool, k, av, rv interface{}) (bool, error) { return true, nil })
 	})
+	if cfg.KS.Name == "struct" && cfg.CustomCompare {
+		// keys layered through the configured marshaler: one Marshal call of either side fails during the
+		// diff. A diff that still reports success is held to the same bound (a layer that could not be
+		// computed must not turn into a walk down what the versions share).
+		o.w.Msh.Reset()
+		n.w.Msh.Reset()
+		diff := func() error {
+			return n.t.DiffIter(ctx, o.t, func(a, r bool, k, av, rv interface{}) (bool, error) { return true, nil })
+		}
+		if r := guardRes(diff); r.Err == nil && r.Panic == nil {
+			for si, side := range []*version{o, n} {
+				if si == 1 && n.w == o.w {
+					break
+				}
+				calls := side.w.Msh.N
+				for i := 0; i < calls; i++ {
+					o.w.Msh.Reset()
+					n.w.Msh.Reset()
+					side.w.Msh.FailAt = map[int]bool{i: true}
+					measure(fmt.Sprintf("DiffIter-with-a-failing-Marshal-call-of-the-%s-version", []string{"old", "new"}[si]), diff)
+					o.w.Msh.Reset()
+					n.w.Msh.Reset()
+					side.w.Msh.FailFrom = i + 1
+					measure(fmt.Sprintf("DiffIter-with-the-marshaler-of-the-%s-version-failing-from-some-call-on", []string{"old", "new"}[si]), diff)
+					atomic.AddInt64(&c15FaultRuns, 2)
+				}
+			}
+		}
+		o.w.Msh.Reset()
+		n.w.Msh.Reset()
+	}
 	measure("StartDiff/NextEntry", func() error {
 		dc, err := n.t.StartDiff(ctx, o.t)
 		if err != nil {
@@ -823,6 +864,11 @@ func versionConfigs(thorough bool) []*world.Config {
 		// height 3 with chains of two stacked pass-through nodes (only layer-0 keys under a layer-3 key)
 		minEntries(world.LKeyCfg(2, []uint8{0, 0, 0, 0, 3, 0, 0, 0, 1, 3}, 1, B, "none"), 7, thorough),
 	}
+	// struct keys: ordered by a comparator of their own, layered through the configured marshaler (which can fail)
+	sc := world.StructCfg(2, []uint8{0, 1, 0, 2, 0}, B, "none")
+	sc.CustomCompare = true
+	sc.Name += "/countingcompare"
+	cs = append(cs, sc)
 	if thorough {
 		cs = append(cs, world.UintCfg(2, urange(0, 10), 1, B, "none"), world.UintCfg(2, urange(1, 6), 2, M, "none"), world.UintCfg(4, ulist(1, 2, 3, 4, 5, 8, 16, 17, 32), 1, B, "none"))
 		for _, l := range allLayerAssignments(5, 2) {
@@ -1003,6 +1049,7 @@ func C15(run *report.Run) {
 		heightC15(run, acc, 4, 4)
 		heightC15(run, acc, 2, 8)
 		heightC15(run, acc, 3, 5)
+		structC15(run, acc)
 		ruler := []uint8{0, 1, 0, 2, 0, 1, 0, 3, 0, 1, 0, 2, 0, 1, 0}
 		wideC15With(run, acc, 1, 2, ruler, 5)
 		wideC15With(run, acc, 3, 2, ruler, 5)
@@ -1014,6 +1061,7 @@ func C15(run *report.Run) {
 		bigC15(run, acc)
 		acc.flush(run)
 	}
+	run.Extra["diffs_with_one_failing_marshal_call"] = atomic.LoadInt64(&c15FaultRuns)
 	run.AddSample("every ordered pair of persisted versions: distinct names passed to Persist.Load during DiffIter and DiffLinks vs 2*D+2, D = |reach(old) xor reach(new)|")
 	run.Rule = "versions as in C07 on cache-less recording stores; all ordered pairs; oracle: distinct Load names <= 2*D+2, and 0 for the same version"
 }
